@@ -99,6 +99,12 @@ def check(ctx):
     check_backfill(ctx)
     from .C10 import check_node_identity
     check_node_identity(ctx, ('taxonomy.', 'cli.from_specified_markers'), floor=1)
+    # what the election computed for a kept level (and what back-filling
+    # copied into a dropped one) reaches every output unchanged: the HDF5
+    # writer stores each record key as it finds it, it does not derive one
+    # from the others over the *output* hierarchy (codec rule of C15)
+    from .C15 import check_record_keys, check_hdf5_codec
+    check_hdf5_codec(ctx, check_record_keys(ctx))
     # settings this property depends on are handed down every call
     # chain, never left to a callee's default (sa/rules/forwarding.py)
     from ..rules.forwarding import check_forwarding
